@@ -260,6 +260,26 @@ def rule_every_function(ctx, rule_id="C08.every-function"):
                   "a path reads/returns granular markings without validating the selectors first", file=fi.module.relpath,
                   line=fi.node.lineno, function=fi.qualname, expected="utils.validate(obj, selectors) dominates every use",
                   found="bypass", path=g.describe_path(path))
+    # the public API functions (stix2.markings.*): whenever selectors are given, every normal return has passed the granular
+    # sibling (which validates) -- no shortcut answers before it
+    API = "stix2.markings"
+    for name in ("get_markings", "set_markings", "remove_markings", "add_markings", "clear_markings", "is_marked"):
+        fi = prog.func("%s::%s" % (API, name))
+        g = cfg_of(fi)
+        sel = "selectors"
+
+        def is_gran(n, _fi=fi):
+            return node_calls(n, lambda c: isinstance(c.func, ast.Attribute) and norm(c.func.value) == "granular_markings")
+
+        def object_only(n):
+            a = n.ast
+            return a is not None and any(pol and norm(t) in ("%s is None" % sel, "not %s" % sel) for t, pol, _ in guard_chain(a))
+        p = g.path_avoiding(g.entry, g.exit, lambda n: is_gran(n) or object_only(n), labels_skip=("exc", "raise"))
+        run.check(p is None, rule_id, key(fi.module.relpath, fi.qualname, "granular-sibling-on-every-selector-path"),
+                  "with selectors given, %s() can answer without calling its granular sibling: the selectors are then never "
+                  "validated (a selector that addresses nothing is accepted)" % name, file=fi.module.relpath, line=fi.node.lineno,
+                  function=fi.qualname, expected="granular_markings.%s(obj, ..., selectors, ...) on every such path" % name,
+                  found="bypass", path=g.describe_path(p))
     # set_markings delegates to clear+add, both of which validate
     sm = prog.func("%s::set_markings" % GRANULAR)
     called = {call_simple_name(c) for c in body_walk(sm.node) if isinstance(c, ast.Call)}
@@ -430,3 +450,23 @@ def rule_descends(ctx, rule_id="C08.descends-into-objects"):
                   found=short(tests[-1]))
     if n < 2:
         raise AnalysisError("iterpath: fewer than two recursive descents found (mapping value, mapping element of a list)")
+    # every mapping handed to the walk is walked: no path from entry to exit avoids the loop over its items (an identity /
+    # "already seen" guard that returns early skips a mapping object that is reachable at a second path), and the guards of
+    # the descents are type tests only
+    g = cfg_of(fi)
+    loops = [nd for nd in g.nodes if nd.kind == "for" and ".items()" in norm(nd.ast.iter) and fi.params[0] in names_in(nd.ast.iter)]
+    if len(loops) != 1:
+        raise AnalysisError("iterpath: loop over the items of the walked mapping not found")
+    okw, pathw = g.must_pass(lambda nd: nd is loops[0])
+    run.check(okw, rule_id, key(fi.module.relpath, fi.qualname, "every-mapping-walked"),
+              "the walk can return before it ranges over the items of the mapping it was given: a mapping object that occurs at "
+              "two places of an object (the same KillChainPhase / ExternalReference instance used twice, one dict stored at two "
+              "keys) is walked at the first place only, selectors into the second are refused", file=fi.module.relpath,
+              line=fi.node.lineno, function=fi.qualname, expected="for key, value in sorted(obj.items()) on every path",
+              found="bypass", path=g.describe_path(pathw))
+    for c in body_walk(fi.node):
+        if isinstance(c, ast.Call) and call_simple_name(c) == "iterpath" and prog.deref(prog.resolve_expr(fi.scope, c.func)) is fi:
+            other = [t for t, pol, _ in guard_chain(c) if not (isinstance(t, ast.Call) and call_simple_name(t) == "isinstance")]
+            run.check(not other, rule_id, key(fi.module.relpath, fi.qualname, "descent-guarded-by-type-only:%s" % short(c, 40)),
+                      "a descent of the selector walk depends on something other than the type of the value", file=fi.module.relpath,
+                      line=c.lineno, function=fi.qualname, expected="isinstance tests only", found=[short(t) for t in other])
